@@ -315,6 +315,16 @@ def check(model, rep):
     rep.inspect(len(list(ast.walk(m.node))))
     check_concrete(model, rep, m)
     check_locking(model, rep, m)
+    # the chain is what the relation functions declared: every accepted declaration links master.drives / slave.driven_by
+    # (C10's effect rules; a declaration that returns without linking leaves an older link in force)
+    from sa.core import Report
+    from checks import c10
+    dep = Report('C10')
+    c10.check(model, dep)
+    for i in dep.instances:
+        if i.rule == 'C10.effects':
+            (rep.holds if i.status == 'HOLDS' else (rep.violation if i.status == 'VIOLATION' else rep.cannot))(
+                'C20.links', i.construct, i.detail, i.loc)
     check_frozen(model, rep)
     rep.require('C20.walk', 2)
     rep.require('C20.rejects', 3)
